@@ -411,6 +411,35 @@ def with_history(rng, cases, variants, fraction=0.25, limit=400):
     return out
 
 
+def inplace_history(res, rng, cases, check_impl, limit=24):
+    """For a sample of cases: pass the FIRST byte-string argument as ONE bytearray object that the caller overwrites
+    in place between consecutive calls of the same function (no other call in between).  A memo that keeps the
+    caller's object, or a cipher context cached by object identity, shows up as a wrong result on the later call."""
+    from harness import core
+
+    picked = [c for c in cases if any(isinstance(a, (bytes, bytearray)) and len(a) > 0 for a in c[1])]
+    rng.shuffle(picked)
+    for fn, args in picked[:limit]:
+        idx = next(i for i, a in enumerate(args) if isinstance(a, (bytes, bytearray)) and len(a) > 0)
+        buf = bytearray(args[idx])
+        for step in range(3):
+            cur = tuple(buf if i == idx else a for i, a in enumerate(args))
+            out = core.impl_call(fn, cur)
+            frozen = tuple(bytes(a) if isinstance(a, bytearray) else a for a in cur)
+            res["evaluations"] = res.get("evaluations", 0) + 1
+            if bytes(buf) != frozen[idx]:
+                res["violations"].append({"what": "call modified its bytearray argument", "expected": core.show(frozen[idx]),
+                                          "observed": core.show(bytes(buf)), "input": {"fn": fn, "args": [core.show(a) for a in frozen]}})
+            v = check_impl(fn, frozen, out)
+            if v:
+                v = dict(v)
+                v["input"] = {"fn": fn, "args": [core.show(a) for a in frozen],
+                              "note": "argument %d passed as ONE bytearray overwritten in place between calls (call %d)" % (idx, step + 1)}
+                res["violations"].append(v)
+            buf[:] = rng.randbytes(len(buf))
+    res.setdefault("distribution", {})["inplace_mutated_buffer_sequences"] = min(limit, len(picked))
+
+
 def merge_results(*rs):
     out = {"evaluations": 0, "distinct_nontrivial": 0, "rule": "", "samples": [], "distribution": {},
            "diffs": [], "violations": []}
